@@ -5,4 +5,4 @@ From Coq Require Import ExtrOcamlBasic.
 Extraction "../build/extract/rb_model.ml" types_witness
   insert remove insert_before first inorder size height layout layout_list root_id
   insert_cases insert_before_cases remove_cases pid pless pagg N.ltb
-  p_insert p_remove p_insert_before p_first rotateLeft rotateRight pp_empty paeqb.
+  p_insert p_remove p_insert_before p_first rotateLeft rotateRight pp_empty paeqb N.lxor.
